@@ -164,6 +164,21 @@ def run_pipeline(n, steps, workdir, via='datastream', sparse=None):
             c = c.__cause__ or c.__context__
         outcome = ['raised', type(e).__name__, type(cause).__name__ if cause is not None else None,
                    str(cause)[:80] if cause is not None else None, chain]
+    second = None
+    if outcome != 'returned' and via != 'datastream' and any(st['t'] == 'checkpoint' for st in steps):
+        # the caller tries again (new Flow, same checkpoint directory): a failure that is still there fails the run again,
+        # nothing left behind by the failed run may stand in for the steps that did not complete
+        log2 = []
+        try:
+            with quiet():
+                links2 = [CountingSource(n, log2, sparse)] + [build_step(st, k + 1, log2, workdir) for k, st in enumerate(steps)]
+                if via == 'results':
+                    Flow(*links2).results()
+                else:
+                    Flow(*links2).process()
+            second = 'returned'
+        except Exception as e2:
+            second = 'raised'
     art = {}
     for k, st in enumerate(steps):
         if st['t'] == 'dump':
@@ -177,7 +192,7 @@ def run_pipeline(n, steps, workdir, via='datastream', sparse=None):
             f = os.path.join(workdir, 'ck', 'c%d' % (k + 1), 'stream.ndjson')
             art['checkpoint%d' % (k + 1)] = {'committed': os.path.exists(f), 'rows': count_ndjson_rows(f)}
     shutil.rmtree(workdir, ignore_errors=True)
-    return {'events': log, 'outcome': outcome, 'artifacts': art, 'delivered': rows_enc(delivered)}
+    return {'events': log, 'outcome': outcome, 'artifacts': art, 'delivered': rows_enc(delivered), 'second_attempt': second}
 
 
 def count_csv_rows(p):
